@@ -1241,8 +1241,10 @@ class C17(Base):
                   "weight is on the tie, which executes all operand forms of all 1089 operator/Sum/Product impls (inventory "
                   "regenerated from /repo on every run; an impl without a call site is reported) on shared operands, bit for bit.")
 
-    def native_args(self, tier, seed):
-        return ["native", "c17", "2000" if tier == "quick" else "500000", str(seed)]
+    def native_runs(self, tier, seed):
+        # native: every operator impl in every operand form on the twelve primitive types, bit for bit;
+        # symbolic: the same forms at the recording scalar on symbolic operands, compared as expression DAGs (all values at once)
+        return [["native", "c17", "2000" if tier == "quick" else "500000", str(seed)], ["native", "c17sym", "0", str(seed)]]
 
     def families(self, rng, tier):
         out = []
